@@ -2,7 +2,7 @@
 use crate::pdu::*;
 use byteordered::byteorder::{BigEndian, WriteBytesExt};
 use dicom_encoding::text::TextCodec;
-use snafu::{Backtrace, ResultExt, Snafu};
+use snafu::{Backtrace, OptionExt, ResultExt, Snafu};
 use std::io::Write;
 
 pub type Error = crate::pdu::WriteError;
@@ -26,6 +26,8 @@ pub enum WriteChunkError {
         backtrace: Backtrace,
         source: std::io::Error,
     },
+    #[snafu(display("Chunk of {length} bytes does not fit its length field"))]
+    ChunkTooLarge { length: usize, backtrace: Backtrace },
 }
 
 fn write_chunk_u32<F>(writer: &mut dyn Write, func: F) -> std::result::Result<(), WriteChunkError>
@@ -37,7 +39,9 @@ where
         .map_err(Box::from)
         .context(BuildChunkSnafu)?;
 
-    let length = data.len() as u32;
+    let length = u32::try_from(data.len())
+        .ok()
+        .context(ChunkTooLargeSnafu { length: data.len() })?;
     writer
         .write_u32::<BigEndian>(length)
         .context(WriteLengthSnafu)?;
@@ -56,7 +60,9 @@ where
         .map_err(Box::from)
         .context(BuildChunkSnafu)?;
 
-    let length = data.len() as u16;
+    let length = u16::try_from(data.len())
+        .ok()
+        .context(ChunkTooLargeSnafu { length: data.len() })?;
     writer
         .write_u16::<BigEndian>(length)
         .context(WriteLengthSnafu)?;
